@@ -5,6 +5,7 @@ mod nanos;
 mod fmt;
 mod conv;
 mod table;
+mod corpus;
 mod rulealpha;
 mod rule;
 mod rulecons;
